@@ -458,6 +458,13 @@ func planFor(prop, tier string) (*plan, error) {
 			ps = append(ps, parProg(b, "cap:map-end+task"))
 			c := &pg.Parallel{Conc: "expr", Items: []pg.Item{{Kind: "task"}, {Kind: "task", Err: true}}}
 			ps = append(ps, parProg(c, "cap:task+task"))
+			// two collections: the End hook of the first is enqueued between their elements
+			d := &pg.Parallel{Conc: "expr", Items: []pg.Item{{Kind: "slice", Idx: true, Err: true, End: &pg.End{}, Coll: 0}, {Kind: "slice", Idx: true, Coll: 1}}}
+			ps = append(ps, parProg(d, "cap:slice-end+slice"))
+			e := &pg.Parallel{Conc: "expr", Items: []pg.Item{{Kind: "map", Err: true, End: &pg.End{Err: true}, Coll: 0}, {Kind: "slice", Idx: true, Coll: 0}}}
+			ps = append(ps, parProg(e, "cap:map-end+slice"))
+			g := &pg.Parallel{Conc: "expr", Items: []pg.Item{{Kind: "slice", Err: true, End: &pg.End{Ctx: true, Err: true}, Coll: 0}, {Kind: "map", Err: true, Coll: 0}}}
+			ps = append(ps, parProg(g, "cap:slice-end+map"))
 			ps = append(ps, flowProg(exprConc(pg.Shape("fork")), "cap:fork"))
 			for _, f := range pg.WithPredFallback(pg.Shape("fork"), []string{"none", "shared"}, 1) {
 				if !hasFallback(f) {
@@ -487,6 +494,24 @@ func planFor(prop, tier string) (*plan, error) {
 						ids = append(ids, pg.ItemID(p.ID, k))
 					}
 					sc := base(p, 2)
+					if len(ids) == 0 {
+						// two collections with one element each
+						sc.Colls, sc.Maps = nil, nil
+						for k, it := range p.Par.Items {
+							if it.Kind == "slice" {
+								for len(sc.Colls) <= it.Coll {
+									sc.Colls = append(sc.Colls, []uint64{7})
+								}
+							}
+							if it.Kind == "map" {
+								for len(sc.Maps) <= it.Coll {
+									sc.Maps = append(sc.Maps, map[string]uint64{"1": 11})
+								}
+							}
+							ids = append(ids, pg.ItemID(p.ID, k))
+						}
+						return []genrt.Scenario{withDec(sc, ids, probe.Bar)}
+					}
 					if len(ids) == 1 {
 						// the single element of the collection is the other participant
 						for k, it := range p.Par.Items {
@@ -764,7 +789,7 @@ func planFor(prop, tier string) (*plan, error) {
 		}
 	case "C07":
 		var ps []*pg.Program
-		for _, n := range []string{"single", "chain2", "chain3", "fork", "join", "diamond", "multi", "invoke", "indep3"} {
+		for _, n := range []string{"single", "chain2", "chain3", "fork", "join", "diamond", "multi", "invoke", "indep3", "dup3"} {
 			ps = append(ps, flowProg(exprConc(pg.Shape(n)), "shape:"+n))
 		}
 		for _, par := range pg.Pars(2, false) {
@@ -833,6 +858,18 @@ func planFor(prop, tier string) (*plan, error) {
 		for _, n := range []string{"chain2", "fork"} {
 			for _, f := range pg.WithPredFallback(pg.Shape(n), []string{"shared"}, 1) {
 				ps = append(ps, flowProg(exprConc(f), "PF:"+n))
+			}
+		}
+		// a panicking predicate in every listing order of the tasks (the edge from a task to its predicate is what reports it)
+		for _, f := range pg.WithPredFallback(pg.Shape("chain2"), []string{"none", "shared", "upstream"}, 1) {
+			g := exprConc(f)
+			for oi, o := range pg.TaskOrders(g) {
+				if oi == 0 {
+					continue
+				}
+				h := g.Clone()
+				h.Order = o
+				ps = append(ps, flowProg(h, "PF-LT:chain2"))
 			}
 		}
 		for _, par := range pg.Pars(2, false) {
